@@ -1,7 +1,13 @@
 (** C06 - conversions are lossless or refused; lossy ones are correctly rounded and say so.
     ONLY statements pinned here; proofs live in Dashu.Conv.*. *)
 From Dashu Require Import Base.Prelude Float.RoundSpec Float.Contract Float.Model Conv.ConvSpec Conv.ConvModel Conv.ConvPrimProofs
-  Conv.ConvArith Conv.ConvIeee Conv.ConvEncodeProofs Conv.ConvStickyProofs Conv.ConvDecodeProofs Conv.ConvRatProofs Conv.ConvFindings.
+  Conv.ConvArith Conv.ConvIeee Conv.ConvEncodeProofs Conv.ConvStickyProofs Conv.ConvDecodeProofs Conv.ConvRatProofs Conv.ConvFindings Conv.ConvSmallProofs Conv.ConvRatFull.
+From Dashu Require Import Conv.ConvFlocq Conv.ConvFlocqCor Conv.ConvParamsProof.
+From DashuGen Require Import ConvParams.
+From Coq Require Import List.
+Import ListNotations.
+From Coq Require Import Reals.
+From Flocq Require Import Core IEEE754.BinarySingleNaN IEEE754.Binary IEEE754.Bits.
 From DashuGen Require Import RoundTables.
 Open Scope Z_scope.
 
@@ -161,16 +167,118 @@ Theorem C06_rational_sticky_rounding : forall num den c, 0 <= num -> 0 < den -> 
 Proof. exact rne_rat_sticky. Qed.
 Print Assumptions C06_rational_sticky_rounding.
 
-Theorem C06_rat_to_float_main_partial : forall P a D,
-  1 <= MB P -> MB P + 3 <= W P -> 2 * BIAS P + 2 = 2 ^ (W P - 1 - MB P) -> 1 <= BIAS P ->
-  TOP_MAX P = BIAS P + 1 -> UNDER P = 1 - BIAS P - MB P ->
-  (NORM_LIM P = 1 - BIAS P \/ NORM_LIM P = 2 - BIAS P) ->
-  0 < a ->
-  let m := fst (rat_quot_sticky P a D) in
-  let shift := snd (rat_quot_sticky P a D) in
-  blen (Z.abs m) <= W P ->
-  (shift >=? TOP_MAX P - (MB P + 3 - 1)) = false ->
-  (shift <? - (BIAS P - 1) - MB P - 1 - (MB P + 3 + 1)) = false ->
-  rat_to_float P a D = ieee_rne (fmt_of P) (fst (frac_of m shift)) (snd (frac_of m shift)).
-Proof. exact rat_to_float_main_partial. Qed.
-Print Assumptions C06_rat_to_float_main_partial.
+(** RBig / Relaxed ::to_f32 / to_f64, the whole function (exponent bookkeeping, main branch, overflow
+    and underflow shortcuts): the correctly rounded value of N/D with the true error sign, for every
+    numerator and every positive denominator (replaces C06_rat_to_float_main_partial) *)
+Theorem C06_rat_to_f32 : forall N D, 0 < D -> rat_to_float P32 N D = ieee_rne F32 N D.
+Proof. exact rat_to_f32_correct. Qed.
+Print Assumptions C06_rat_to_f32.
+
+Theorem C06_rat_to_f64 : forall N D, 0 < D -> rat_to_float P64 N D = ieee_rne F64 N D.
+Proof. exact rat_to_f64_correct. Qed.
+Print Assumptions C06_rat_to_f64.
+
+(** the double-word route (native cast = ieee_rne, error sign recovered by casting back) for every
+    double word, hence UBig / IBig ::to_f32 / to_f64 for EVERY integer (DW = bits of a double word) *)
+Theorem C06_to_f32_small : forall DW v, 1 <= DW -> 0 <= v < 2 ^ DW -> to_float_small P32 DW v = ieee_rne F32 v 1.
+Proof. exact to_f32_small_correct. Qed.
+Print Assumptions C06_to_f32_small.
+
+Theorem C06_to_f64_small : forall DW v, 1 <= DW -> 0 <= v < 2 ^ DW -> to_float_small P64 DW v = ieee_rne F64 v 1.
+Proof. exact to_f64_small_correct. Qed.
+Print Assumptions C06_to_f64_small.
+
+Theorem C06_ubig_to_f32 : forall DW v, 32 <= DW -> 0 <= v -> ubig_to_float P32 DW v = ieee_rne F32 v 1.
+Proof. exact ubig_to_f32_correct. Qed.
+Print Assumptions C06_ubig_to_f32.
+
+Theorem C06_ubig_to_f64 : forall DW v, 64 <= DW -> 0 <= v -> ubig_to_float P64 DW v = ieee_rne F64 v 1.
+Proof. exact ubig_to_f64_correct. Qed.
+Print Assumptions C06_ubig_to_f64.
+
+Theorem C06_ibig_to_f32 : forall DW v, 32 <= DW -> ibig_to_float P32 DW v = ieee_rne F32 v 1.
+Proof. exact ibig_to_f32_correct. Qed.
+Print Assumptions C06_ibig_to_f32.
+
+Theorem C06_ibig_to_f64 : forall DW v, 64 <= DW -> ibig_to_float P64 DW v = ieee_rne F64 v 1.
+Proof. exact ibig_to_f64_correct. Qed.
+Print Assumptions C06_ibig_to_f64.
+
+(** Bridge to Flocq: the in-house specification [ieee_rne] on every dyadic m * 2^e IS Flocq's
+    [binary_normalize ... mode_NE m e false] (bit pattern by [bits_of_b32/b64], error sign by
+    [Rcompare] of the rounded against the exact real value; overflow to the infinity of the sign
+    of m).  With these, [ieee_rne] leaves the trusted base for dyadic sources. *)
+Theorem C06_spec_is_flocq_f64 : forall m e : Z, m <> 0 ->
+  let b := binary_normalize 53 1024 (eq_refl) (eq_refl) mode_NE m e false in
+  fst (ieee_rne F64 (fst (frac_of m e)) (snd (frac_of m e))) = bits_of_b64 b.
+Proof. exact ieee_rne_flocq_f64. Qed.
+Print Assumptions C06_spec_is_flocq_f64.
+
+Theorem C06_spec_is_flocq_f64_sign : forall m e : Z, m <> 0 ->
+  let b := binary_normalize 53 1024 (eq_refl) (eq_refl) mode_NE m e false in
+  snd (ieee_rne F64 (fst (frac_of m e)) (snd (frac_of m e))) =
+  if is_finite 53 1024 b then Rcompare (B2R 53 1024 b) (F2R (Float radix2 m e))
+  else if m <? 0 then Lt else Gt.
+Proof. exact ieee_rne_flocq_f64_sign. Qed.
+Print Assumptions C06_spec_is_flocq_f64_sign.
+
+Theorem C06_spec_is_flocq_f32 : forall m e : Z, m <> 0 ->
+  let b := binary_normalize 24 128 (eq_refl) (eq_refl) mode_NE m e false in
+  fst (ieee_rne F32 (fst (frac_of m e)) (snd (frac_of m e))) = bits_of_b32 b.
+Proof. exact ieee_rne_flocq_f32. Qed.
+Print Assumptions C06_spec_is_flocq_f32.
+
+Theorem C06_spec_is_flocq_f32_sign : forall m e : Z, m <> 0 ->
+  let b := binary_normalize 24 128 (eq_refl) (eq_refl) mode_NE m e false in
+  snd (ieee_rne F32 (fst (frac_of m e)) (snd (frac_of m e))) =
+  if is_finite 24 128 b then Rcompare (B2R 24 128 b) (F2R (Float radix2 m e))
+  else if m <? 0 then Lt else Gt.
+Proof. exact ieee_rne_flocq_f32_sign. Qed.
+Print Assumptions C06_spec_is_flocq_f32_sign.
+
+(** the code against Flocq directly: FloatEncoding::encode and IBig/UBig::to_f32/to_f64 *)
+Theorem C06_encode_f64_flocq : forall m e, - 2 ^ 63 <= m < 2 ^ 63 -> m <> 0 ->
+  fst (encode_asis P64 m e) = bits_of_b64 (flocq64 m e) /\
+  snd (encode_asis P64 m e) =
+    if is_finite 53 1024 (flocq64 m e) then Rcompare (B2R 53 1024 (flocq64 m e)) (F2R (Float radix2 m e))
+    else if m <? 0 then Lt else Gt.
+Proof. exact encode_f64_flocq. Qed.
+Print Assumptions C06_encode_f64_flocq.
+
+Theorem C06_encode_f32_flocq : forall m e, - 2 ^ 31 <= m < 2 ^ 31 -> m <> 0 ->
+  fst (encode_asis P32 m e) = bits_of_b32 (flocq32 m e) /\
+  snd (encode_asis P32 m e) =
+    if is_finite 24 128 (flocq32 m e) then Rcompare (B2R 24 128 (flocq32 m e)) (F2R (Float radix2 m e))
+    else if m <? 0 then Lt else Gt.
+Proof. exact encode_f32_flocq. Qed.
+Print Assumptions C06_encode_f32_flocq.
+
+Theorem C06_ibig_to_f64_flocq : forall DW v, 64 <= DW -> v <> 0 ->
+  fst (ibig_to_float P64 DW v) = bits_of_b64 (flocq64 v 0) /\
+  snd (ibig_to_float P64 DW v) =
+    if is_finite 53 1024 (flocq64 v 0) then Rcompare (B2R 53 1024 (flocq64 v 0)) (IZR v)
+    else if v <? 0 then Lt else Gt.
+Proof. exact ibig_to_f64_flocq. Qed.
+Print Assumptions C06_ibig_to_f64_flocq.
+
+Theorem C06_ibig_to_f32_flocq : forall DW v, 32 <= DW -> v <> 0 ->
+  fst (ibig_to_float P32 DW v) = bits_of_b32 (flocq32 v 0) /\
+  snd (ibig_to_float P32 DW v) =
+    if is_finite 24 128 (flocq32 v 0) then Rcompare (B2R 24 128 (flocq32 v 0)) (IZR v)
+    else if v <? 0 then Lt else Gt.
+Proof. exact ibig_to_f32_flocq. Qed.
+Print Assumptions C06_ibig_to_f32_flocq.
+
+(** tie to the sources: the literals of encode/decode, to_f32/to_f64_nontrivial, to_f32/to_f64_small
+    (shape), Repr::to_f32/to_f64 and into_f32/f64_internal, re-read from the repository on every
+    run (coq/gen/ConvParams.v), are the constants of the as-is models *)
+Theorem C06_source_literals_tie :
+  encode_f32_gen = encode_lits P32 /\ encode_f64_gen = encode_lits P64 /\
+  decode_f32_gen = decode_lits P32 /\ decode_f64_gen = decode_lits P64 /\
+  int_to_f32_nontrivial_gen = int_nontrivial_lits P32 /\ int_to_f64_nontrivial_gen = int_nontrivial_lits P64 /\
+  int_to_f32_small_gen = [1; 1; 2] /\ int_to_f64_small_gen = [1; 1; 2] /\
+  rat_to_f32_gen = rat_lits P32 /\ rat_to_f64_gen = rat_lits P64 /\
+  fbig_into_f32_gen = fbig_into_lits P32 /\ fbig_into_f64_gen = fbig_into_lits P64 /\
+  UNDER P32 = - (BIAS P32 - 1) - MB P32 /\ UNDER P64 = - (BIAS P64 - 1) - MB P64.
+Proof. exact conv_params_tie. Qed.
+Print Assumptions C06_source_literals_tie.
